@@ -290,11 +290,24 @@ func genC10(seed uint64, tier string, idx int) *Plan {
 	for n := 1 + g.r.intn(3); n > 0; n-- {
 		v19 := g.r.chance(50)
 		if g.r.chance(60) {
-			ci := g.addConn("service", v19, g.distinctPhone(v19, used))
+			ph := g.distinctPhone(v19, used)
+			if g.r.chance(35) {
+				// presents the phone of an established well-behaved session (duplicate key)
+				v19 = p.Conns[0].Ver19
+				ph = p.Conns[0].Phone
+				p.Faults = append(p.Faults, "input.duplicate_key")
+			}
+			ci := g.addConn("service", v19, ph)
 			p.Conns[ci].Hostile = true
 			s, note := g.hostileServiceStream(ci)
 			g.hostileActor(ci, s, note)
-			hostileKeys = append(hostileKeys, ref.PhoneDigits(p.Conns[ci].Phone))
+			if string(p.Conns[ci].Phone) == string(p.Conns[0].Phone) {
+				ha := p.Actors[len(p.Actors)-1]
+				ha.Ops[0].After = &Dep{Actor: p.Actors[0].Name, N: len(p.Actors[0].Ops)}
+				ha.Ops[0].MinStep = 0
+			} else {
+				hostileKeys = append(hostileKeys, ref.PhoneDigits(p.Conns[ci].Phone))
+			}
 		} else {
 			ci := g.addConn("attachment", v19, g.distinctPhone(v19, used))
 			p.Conns[ci].Hostile = true
@@ -317,7 +330,10 @@ func genC10(seed uint64, tier string, idx int) *Plan {
 	for _, a := range p.Actors {
 		settle.Ops = append(settle.Ops, Op{K: "mark", Note: "wait:" + a.Name, After: &Dep{Actor: a.Name, N: len(a.Ops)}})
 	}
-	settle.Ops = append(settle.Ops, Op{K: "quiet"}, Op{K: "sleep", D: int64(5 * time.Second)}, Op{K: "quiet"})
+	settle.Ops = append(settle.Ops, Op{K: "quiet"}, Op{K: "sleep", D: int64(5 * time.Second)}, Op{K: "quiet"},
+		// the first well-behaved session is still online: a command for its key must reach it
+		Op{K: "call", Call: &CallSpec{Key: ref.PhoneDigits(p.Conns[0].Phone), Cmd: 0x8104, Body: []byte{0xC1, 0x0E}, Timeout: int64(time.Second)}},
+		Op{K: "quiet"}, Op{K: "sleep", D: int64(3 * time.Second)}, Op{K: "quiet"})
 	p.Actors = append(p.Actors, settle)
 	{
 		v19 := g.r.chance(50)
@@ -376,6 +392,14 @@ func checkC10(r *Result) []Violation {
 				return []Violation{{Prop: "C10", Rule: "C10.other_client_affected", Sig: "C10.other_client_affected:att_missing_reply",
 					Msg: fmt.Sprintf("well-behaved attachment session on conn %d: control frame %#04x never answered", up.Conn, c.unit.ID)}}
 			}
+		}
+	}
+	// the established session still receives the commands addressed to its key
+	for _, c := range collectCalls(r) {
+		if c.call.Note == "settle" && c.cmdConn != 0 {
+			return []Violation{{Prop: "C10", Rule: "C10.other_client_affected", Sig: "C10.other_client_affected:command_not_routed",
+				Msg:  fmt.Sprintf("after the hostile traffic a command for the established session's key %s was not written to its connection (result: %v)", c.call.Key, errOf(c.ret)),
+				Step: c.call.Step}}
 		}
 	}
 	// new connections are accepted and served
@@ -471,4 +495,14 @@ func init() {
 			}
 			return h && s
 		}})
+}
+
+func errOf(e *Ev) string {
+	if e == nil {
+		return "call never returned"
+	}
+	if e.Err == "" {
+		return "response"
+	}
+	return e.Err
 }
